@@ -1,24 +1,39 @@
-import Gopki.Lemmas.CalLemmas
+import Gopki.Lemmas.CalInv
 import Gopki.Model.Db
 import Gopki.Props.C02
 /-! # C04 — validity period in the certificate equals the configured dates or duration
 
 The calendar is the proleptic Gregorian one on integer days (`Gopki.Base.Calendar`); the model of
 `toTimeStruct`, `AddDate` and the UTC conversion is compared with the implementation on every calendar day
-of 1950–2200 under nine zone offsets (thorough tier).  Proved here: the component laws of the
-days ↔ civil conversion for **all** years (`Cal.mp_inv`, `Cal.doy_bounds`, `Calendar.yoe_table`), the
-inverse law on six sample years by kernel evaluation (`C04_inverse_law_sample_years_partial`, a test;
-the assembly of the component laws into the statement for every year is what is missing), the time form,
-the duration grammar and the inheritance rule. -/
+of 1950–2200 under nine zone offsets (thorough tier).  Proved here: the days ↔ civil inverse law for
+**every** year (`Calendar.civilFromDays_daysFromCivil`, assembled in `Lemmas/CalInv.lean` from `Cal.mp_inv`,
+`Cal.doy_bounds` and the complete kernel-evaluated table `Calendar.yoe_table`), hence that a `from` / `until`
+date is local midnight of exactly that day in every zone (`C04_date_is_local_midnight`), the time form, the
+duration grammar and the inheritance rule. -/
 namespace C04
 open Calendar V1
 
-set_option maxRecDepth 100000 in
-/-- days ↔ civil date inverse law on every date of six years that cover the leap rules (1999, 2000 — a leap
-    century —, 2024, 2049, 2050, 2100 — a common century), checked by the kernel.  This is a **test**, not
-    the unbounded claim: partial, see the module comment -/
-theorem C04_inverse_law_sample_years_partial : ∀ y ∈ [1999, 2000, 2024, 2049, 2050, 2100], yearOk y = true := by
-  decide +kernel
+/-- **`from` and `until` are read as YYYY-MM-DD at local midnight**: for every valid calendar date written
+    with four, two and two digits, `parseDate` yields an instant whose wall clock in the zone of the given offset
+    is that date at 00:00:00 — every year 0000 … 9999, every zone offset -/
+theorem C04_date_is_local_midnight (y1 y2 y3 y4 m1 m2 d1 d2 : Char) (off : Int)
+    (hdig : [y1, y2, y3, y4, m1, m2, d1, d2].all Config.isDigit = true)
+    (hv : validDate (((y1.toNat - 48) * 1000 + (y2.toNat - 48) * 100 + (y3.toNat - 48) * 10 + (y4.toNat - 48) : Nat) : Int)
+            ((m1.toNat - 48) * 10 + (m2.toNat - 48)) ((d1.toNat - 48) * 10 + (d2.toNat - 48)) = true) :
+    ∃ t, parseDate (String.ofList [y1, y2, y3, y4, '-', m1, m2, '-', d1, d2]) off = some t ∧
+      wallOf t off = ⟨(((y1.toNat - 48) * 1000 + (y2.toNat - 48) * 100 + (y3.toNat - 48) * 10 + (y4.toNat - 48) : Nat) : Int),
+                      (m1.toNat - 48) * 10 + (m2.toNat - 48), (d1.toNat - 48) * 10 + (d2.toNat - 48), 0, 0, 0⟩ := by
+  refine ⟨_, ?_, wallOf_goDate_midnight _ _ _ off hv⟩
+  unfold parseDate
+  simp only [String.toList_ofList, hdig, hv, if_true]
+
+/-- non-vacuity: 2025-03-05 in a zone two hours east of UTC -/
+example : ∃ t, parseDate "2025-03-05" 7200 = some t ∧ wallOf t 7200 = ⟨2025, 3, 5, 0, 0, 0⟩ :=
+  C04_date_is_local_midnight '2' '0' '2' '5' '0' '3' '0' '5' 7200 (by decide) (by decide)
+
+/-- an impossible date that passes the schema's pattern is rejected (a configuration error) -/
+theorem C04_invalid_rejected : parseDate "2025-02-30" 0 = none ∧ parseDate "2025-13-01" 0 = none ∧ parseDate "2100-02-29" 0 = none := by
+  decide
 
 /-- the documented duration grammar `NyMmDd` (any subset, in this order) -/
 theorem C04_duration_grammar :
